@@ -6,7 +6,7 @@
    group: C09_parse_print_roundtrip is the unbounded statement (every well-formed tree of any size and
    depth, printed with only the necessary parentheses, parses back to itself), proved by induction in
    MiluRoundtrip.v for the regenerated ladder, and C09_blank_irrelevant covers every closed filler. *)
-From RP Require Import Base Target MiluSyntax MiluParser MiluDoc C09Proofs RtBlank RtLeaf MiluRoundtrip.
+From RP Require Import Base Target MiluSyntax MiluParser MiluDoc C09Proofs RtBlank RtLeaf MiluRoundtrip MiluRoundtripWs.
 From RP.Gen Require Import Gen_ladder.
 From Coq Require Import String ZArith Lia List.
 Import ListNotations.
@@ -90,6 +90,30 @@ Print Assumptions C09_number_literals.
 Theorem C09_blank_irrelevant : forall bs i, blank_str bs -> skip_blank (bs ++ i) = skip_blank i.
 Proof. exact skip_blank_closed. Qed.
 Print Assumptions C09_blank_irrelevant.
+
+(* white space, line breaks and comments between tokens never change the result: the same round trip when EVERY
+   token gap carries its own arbitrary non-empty blank filler (white space, closed # and /* */ comments); the k-th
+   gap in printing order receives f k, and with a single space everywhere the printer is m_print *)
+Theorem C09_parse_print_roundtrip_any_filler : forall f t, m_wf t -> filler_ok f ->
+  parse levels parse2_table parse1_table unary_tags MiluDoc.top_rule ternary_cond_rule (m_print_ws f t)
+  = POk (m_denote t) [].
+Proof. exact roundtrip_ws. Qed.
+Print Assumptions C09_parse_print_roundtrip_any_filler.
+
+Theorem C09_filler_printer_is_the_printer : forall t, m_print_ws (fun _ => [32]) t = m_print t.
+Proof. exact m_print_ws_spaces. Qed.
+Print Assumptions C09_filler_printer_is_the_printer.
+
+Theorem C09_fillers_sit_between_tokens : forall f t,
+  m_print_ws f t = weave (m_toks t) f 0 /\ List.length (m_toks t) = S (m_gaps t).
+Proof. exact m_print_ws_tokens. Qed.
+Print Assumptions C09_fillers_sit_between_tokens.
+
+Theorem C09_blank_invariance : forall f g t, m_wf t -> filler_ok f -> filler_ok g ->
+  parse levels parse2_table parse1_table unary_tags MiluDoc.top_rule ternary_cond_rule (m_print_ws f t) =
+  parse levels parse2_table parse1_table unary_tags MiluDoc.top_rule ternary_cond_rule (m_print_ws g t).
+Proof. exact blank_invariance. Qed.
+Print Assumptions C09_blank_invariance.
 
 (* non-vacuity: a tree using a conditional, two binary levels, a unary operator, a call, an index and a member
    access is well formed; its printed form needs exactly one pair of parentheses *)
